@@ -105,7 +105,8 @@ def deflate_cases(tier, seed):
     out = []
     for it in range(N):
         n = r.choice([3, 4, 5, 6, 8]); nv = r.randint(1, min(5, n - 1))
-        rows = gen.spd_mmatrix(r, n)
+        nonsym = (it % 2 == 1)       # non-symmetric A: E = Z^T A Z is not symmetric (index order of E^-1 matters)
+        rows = gen.nonsym_dd(r, n) if nonsym else gen.spd_mmatrix(r, n)
         Z = []
         for k in range(nv):   # linearly independent: unit-lower-triangular pattern plus noise
             z = [F(0)] * n
@@ -117,7 +118,8 @@ def deflate_cases(tier, seed):
         pay = "%s %d %s %s" % (fmt_crs(n, n, rows), nv, " ".join(fmt_vec(z) for z in Z), fmt_vec(b))
         out.append(dict(id="d%d" % len(out), line="deflate project %s %s" % (pay, fmt_vec(x0)), what="project", pay=pay, crs=fmt_crs(n, n, rows), b=b))
         out.append(dict(id="d%d" % len(out), line="deflate apply %s %s" % (pay, fmt_vec([F(0)] * n)), what="apply", pay=pay, crs=fmt_crs(n, n, rows), b=b))
-        out.append(dict(id="d%d" % len(out), line="deflate solve %s %s" % (pay, fmt_vec([F(0)] * n)), what="solve", pay=pay, crs=fmt_crs(n, n, rows), b=b))
+        if not nonsym:   # the full solve uses CG: SPD systems only
+            out.append(dict(id="d%d" % len(out), line="deflate solve %s %s" % (pay, fmt_vec([F(0)] * n)), what="solve", pay=pay, crs=fmt_crs(n, n, rows), b=b))
     return out
 
 
